@@ -97,29 +97,23 @@ def run(ctx, F, cg):
             for cp in sorted(c_ for c_ in F.fns if c_.startswith(ff + "::{closure")):
                 cr = F.fns[cp]
                 cb = Body(F.mir(cp), cr)
-                cmps = []
-                for i, j, pl, rv, line, exp in cb.stmts():
-                    if rv[0] == "bin" and rv[1] in od.CMP and all(o[0] != "k" and any(f.endswith("Individual.fitness") for f in od.chain_fields(cb, o)) for o in rv[2:4]):
-                        cmps.append((i, pl[0], rv[1], line))
+                from .. import histrules as hr_
+                guards_ = [g for g in hr_._guards(cb) if hr_._reads_fitness(cb, g[4]) and hr_._reads_fitness(cb, g[5])]
                 marks = [(i, line) for i, j, pl, rv, line, exp in cb.stmts() if rv[0] == "use" and rv[1][0] == "k" and rv[1][1].strip() == "const true" and cb.local_ty(pl[0]) == "bool" and not pl[1]]
-                if not cmps or not marks:
+                if not guards_ or not marks:
                     continue
                 ctx.saw_fn(cp)
-                for (ci, cl, op, line) in cmps:
-                    eq_val = "1" if op in ("Le", "Ge", "Eq") else "0"
-                    for sb in sorted(cb.live_blocks()):
-                        t = cb.blocks[sb]["t"]
-                        if t[0] != "switch" or t[1][0] == "k" or t[1][1][0] != cl:
-                            continue
-                        tk = [tgt for v, tgt in t[2] if v == eq_val]
-                        taken = tk[0] if tk else t[3]
-                        reach = cb.reachable(taken, avoid={sb})
-                        found += 1
-                        hit = [m for m in marks if m[0] in reach]
-                        if hit:
-                            ctx.violation("R34f", "firefly|moves-on-tie", where(cr, line), "a firefly is moved (line %d) when the other one's fitness is merely equal to its own: two fireflies tied for best move each other, the incumbent gets worse and the reported history increases" % hit[0][1])
-                        else:
-                            ctx.ok("R34f", "firefly|strict-attraction", "the moved mark is unreachable on the equal-fitness outcome")
+                for (sb, tt, ft, op, lhs, rhs, line) in guards_:
+                    # the outcome of the comparison when the two fitness values are equal (switches on a copy of the
+                    # comparison result are followed; `!c` in a condition is lowered to swapped targets)
+                    taken = tt if op in ("Le", "Ge") else ft
+                    reach = cb.reachable(taken, avoid={sb})
+                    found += 1
+                    hit = [m for m in marks if m[0] in reach]
+                    if hit:
+                        ctx.violation("R34f", "firefly|moves-on-tie", where(cr, line), "a firefly is moved (line %d) when the other one's fitness is merely equal to its own: two fireflies tied for best move each other, the incumbent gets worse and the reported history increases" % hit[0][1])
+                    else:
+                        ctx.ok("R34f", "firefly|strict-attraction", "the moved mark is unreachable on the equal-fitness outcome")
             if not found:
                 ctx.anchor_failure("R34f", "fitness comparison guarding a moved mark in FireflySolver::solve closures")
     # ---- R34g: the history of every single-objective solver is monotone by construction ------------------------------
